@@ -112,6 +112,8 @@ def check(run, prog, tier):
                 sid = d.get("session_id")
                 if not (sid is not None and sid[0] == "item" and sid[2] == const(1) and sid[1][0] == "call" and sid[1][1][0] == "bound" and sid[1][1][2] == assign):
                     probs.setdefault("V1:session_id", f"session id = {show(sid)[:60] if sid else '?'}; expected the id handed out by assign_outgoing")
+                elif sends and sid[1][2][:1] != (sends[0].arg(1, "remote"),):
+                    probs.setdefault("V1:session_id", f"session id counted for {show(sid[1][2][0])[:40] if sid[1][2] else '?'} but the datagram goes to {show(sends[0].arg(1, 'remote'))[:40]}: not a per-destination counter")
                 if set(d) - set(want) - {"method_id", "session_id"}:
                     probs.setdefault("V1:extra-fields", f"unexpected header fields {sorted(set(d) - set(want) - {'method_id', 'session_id'})}")
         if not p.truncated:
